@@ -691,6 +691,16 @@ CAMPAIGNS['C09'].append(
          'preemption inside the package; afterwards an unchanged rebuild '
          're-executes nothing', nontrivial=nt_threads, chunk=4,
          post='tag_all:C09', weight=0.6))
+CAMPAIGNS['C10'].append(
+    camp('c10-duplicates', 'threads', {'p_same_key': 1.0, 'p_tamper': 0.3},
+         'the build_file contract when two to four simulated threads ask for '
+         'the same target in new directory chains (one builds or fails, the '
+         'others are refused): directories created for a failed target are '
+         'gone from the view at once and from the disk at the end; complete '
+         'single-preemption sweep of the first threaded build',
+         mode='sched-sweep', nontrivial=nt_threads, chunk=3,
+         post='tag_all:C10', weight=0.7,
+         sweep_max={'quick': 14, 'thorough': None}))
 RACE_RULE = ('a key (build_file path / subbuild name+arguments) performed '
              'directly by one thread while another thread reuses or '
              're-executes a cached subtree (depth 1-2) that contains it; '
